@@ -676,25 +676,30 @@ def run(ctx):
         if "alias" in r:
             hist["histories"]["cache_hits"] += len(r["alias"]) - len(set(r["alias"]))
         if code & 2:
-            trim = None
+            sh, e2 = h, entry
             if "canvases" in r and not ctx.replay and n_shrunk < 2:
                 n_shrunk += 1
-                sh, trim = shrink(h, entry)
-                if sh is not h:
-                    e2, _e = evaluate([sh], "c17_shrink")
-                    if e2[0][0] & 2:
-                        why = e2[0][1]
-                    else:
-                        sh, trim = h, None
+                cand, _t = shrink(h, entry)
+                if cand is not h:
+                    ev, _e = evaluate([cand], "c17_shrink")
+                    if ev[0][0] & 2:
+                        sh, e2 = cand, ev[0]
+            why2 = e2[1]
+            trim = None
+            last = sh["steps"][-1]
+            if last[0] == "trim" and isinstance(last[2], list) and len(last[2]) == 1:
+                trim = last[2][0]
+            if why2:
+                detail = "; ".join(why2)
+            elif trim:
+                detail = (f"content{tuple(trim)} on the canvas of the last request does not show the corresponding region of that "
+                          f"canvas's untrimmed rows as they were when it was built (rows / width / colours / end-of-row attributes)")
             else:
-                sh = h
-                last = h["steps"][-1]
-                if last[0] == "trim" and isinstance(last[2], list) and len(last[2]) == 1:
-                    trim = last[2][0]
-            detail = "; ".join(why) if why else (
-                f"content{tuple(trim) if trim else ''} on the canvas of the last request does not show the corresponding region of that "
-                f"canvas's untrimmed rows as they were when it was built (rows / width / colours / end-of-row attributes)")
-            failures.append({"signature": core.sig(["c17", sh["style"], sh["img"], sh["widgets"], sh["steps"], why[:1]]),
+                bad = [f"canvas {k} {tuple(x['size'])} holding an image of {tuple(x['image_size'])}"
+                       for k, (x, cc) in enumerate(zip(e2[2].get("canvases", []), e2[3])) if cc & 2]
+                detail = ("a request, or the untrimmed content() itself, does not show what the canvas should (rows not `cols` wide / "
+                          "not `rows` many / colours left on / not the crop of the untrimmed rows) on " + ", ".join(bad))
+            failures.append({"signature": core.sig(["c17", sh["style"], sh["img"], sh["widgets"], sh["steps"], why2[:1]]),
                              "what": f"{detail} — {describe_history(sh)}", "replay": {"case": sh}})
         elif code & 1:
             k = next((k for k, cc in enumerate(ccodes) if cc & 1), 0)
